@@ -8,9 +8,9 @@ WT=/tmp/wt_recheck
 git -C /repo worktree remove --force $WT >/dev/null 2>&1
 git -C /repo worktree add -q $WT HEAD || exit 3
 for s in $SEEDS; do
-  git -C $WT checkout -q -- . ; git -C $WT clean -fdq
+  git -C $WT reset -q --hard HEAD; git -C $WT clean -fdq
   if ! git -C $WT apply /verif/seeded/$s/patch.diff 2>/dev/null; then
-    if ! git -C $WT apply -3 /verif/seeded/$s/patch.diff >/dev/null 2>&1; then echo "$s PATCH-DOES-NOT-APPLY"; git -C $WT checkout -q -- .; continue; fi
+    if ! git -C $WT apply -3 /verif/seeded/$s/patch.diff >/dev/null 2>&1; then echo "$s PATCH-DOES-NOT-APPLY"; git -C $WT reset -q --hard HEAD; continue; fi
   fi
   checks=$(/verif/.venv/bin/python -c "
 import json; m=json.load(open('/verif/seeded/$s/meta.json')); print(' '.join(c['check'] for c in m['checks'] if c['exit']==1))")
